@@ -114,6 +114,89 @@ def file_item(out, item, rep, tmpdir):
                         emit(out, iid, "cli_" + k, rep, "<not written>", False)
 
 
+def derive_pdb(text, variant, rnd):
+    """A corpus PDB file with one feature no corpus file has, added at the text level (fixed columns): alternate
+    locations with equal occupancies, insertion codes, a second model, duplicated atoms.  Pure function of
+    (text, variant, rnd state)."""
+    lines = text.splitlines()
+    atoms = [k for k, l in enumerate(lines) if l.startswith(("ATOM  ", "HETATM"))]
+    if not atoms:
+        return text
+    keys = []
+    for k in atoms:
+        key = lines[k][21:27]  # chain + resSeq + iCode
+        if not keys or keys[-1] != key:
+            keys.append(key)
+    chosen = set(rnd.sample(keys, max(1, min(len(keys), rnd.randint(2, 5)))))
+
+    def shifted(l, d):
+        x, y, z = float(l[30:38]) + d, float(l[38:46]) - d, float(l[46:54]) + d / 2
+        return l[:30] + "%8.3f%8.3f%8.3f" % (x, y, z) + l[54:]
+
+    out = []
+    if variant == "altloc":
+        for k, l in enumerate(lines):
+            if k in atoms and l[21:27] in chosen and l[16] == " ":
+                l = l.ljust(66)
+                out.append(l[:16] + "A" + l[17:54] + "  0.50" + l[60:])
+                out.append(shifted(l[:16] + "B" + l[17:54] + "  0.50" + l[60:], 2.5))  # far enough to change pairings
+            else:
+                out.append(l)
+    elif variant == "dupatoms":
+        for k, l in enumerate(lines):
+            out.append(l)
+            if k in atoms and l[21:27] in chosen and rnd.random() < 0.4:
+                out.append(shifted(l, rnd.choice([0.05, 1.5])))  # the same atom name once more, on top of or near the first
+    elif variant == "icode":
+        # a run of consecutive residues collapses onto one residue number with insertion codes A, B, C
+        start = rnd.randrange(max(1, len(keys) - 3))
+        run = keys[start:start + 3]
+        base = run[0]
+        for k, l in enumerate(lines):
+            if k in atoms and l[21:27] in run:
+                out.append(l[:21] + base[:5] + "ABC"[run.index(l[21:27])] + l[27:])
+            else:
+                out.append(l)
+    elif variant == "twinchain":
+        # static disorder modelled as a second chain on top of the first: the chosen residues once more under
+        # another chain identifier, 0.2 A away, both copies with occupancy 0.50 (a tie for the clash filter)
+        used = {l[21] for k, l in enumerate(lines) if k in atoms}
+        twin = next(c for c in "ZYXWVUTSRQ" if c not in used)
+        extra = []
+        for k, l in enumerate(lines):
+            if k in atoms and l[21:27] in chosen:
+                l = l.ljust(66)
+                out.append(l[:54] + "  0.50" + l[60:])
+                extra.append(shifted(l[:21] + twin + l[22:54] + "  0.50" + l[60:], 0.2))
+            else:
+                out.append(l)
+        last = max(atoms)
+        pos = next(i for i, l in enumerate(out) if l[:66].rstrip() == lines[last].ljust(66)[:66].rstrip() or i == len(out) - 1)
+        out = out[:pos + 1] + extra + out[pos + 1:]
+    elif variant == "models":
+        body = [l for l in lines if l.startswith(("ATOM  ", "HETATM", "TER"))]
+        head = [l for l in lines if not l.startswith(("ATOM  ", "HETATM", "TER", "MODEL", "ENDMDL", "END", "MASTER", "CONECT"))]
+        out = head + ["MODEL        1"] + body + ["ENDMDL", "MODEL        2"]
+        out += [shifted(l, 3.0) if l.startswith(("ATOM  ", "HETATM")) and l[21:27] in chosen else l for l in body]
+        out += ["ENDMDL", "END"]
+    else:
+        out = lines
+    return "\n".join(out) + "\n"
+
+
+def derived_item(out, item, rep, tmpdir):
+    import random
+
+    with open(item["source"]) as f:
+        text = f.read()
+    derived = derive_pdb(text, item["variant"], random.Random(item["gen_seed"]))
+    path = os.path.join(tmpdir, "derived-%s.pdb" % item["variant"])
+    with open(path, "w") as f:
+        f.write(derived)
+    emit(out, item["id"], "derived_input", rep, derived, False)
+    file_item(out, dict(item, path=path, type="file"), rep, tmpdir)
+
+
 def _outcome(fn):
     """An output or the refusal: both must be the same everywhere."""
     try:
@@ -418,6 +501,8 @@ def main():
                         tool_item(out, item, rep, tmpdir)
                     elif item["type"] == "adapter_gen":
                         adapter_gen_item(out, item, rep, tmpdir)
+                    elif item["type"] == "derived":
+                        derived_item(out, item, rep, tmpdir)
                     else:
                         bpseq_item(out, item, rep, tmpdir)
                 except Exception as e:  # noqa: BLE001 - an exception is an output too, and must be the same everywhere
